@@ -249,3 +249,71 @@ Example ex_c16_pred_cov_witness :
   cov_unmasked_old 2 wit_KJ wit_Ainv O O = q4_5.
 Proof. exact ex_pred_cov_witness. Qed.
 Print Assumptions ex_c16_pred_cov_witness.
+
+(* ---- the EXECUTED 'mask' / 'fill' posterior is the REAL-NUMBER deletion posterior (Base/Morph.v,
+   Proofs/C16_morph.v).  The driver compares the implementation with the model run on exact rationals; Q2R' is a
+   field morphism QcF -> RF commuting with every operation of the model and leaving the NaN pattern alone
+   ([nvR] maps the values under Some).  Whenever the wrapper gets past its certificate check(s), the inverse it used
+   maps to a real inverse of the real masked (filled) train covariance and what it prints - mean read back through
+   the NaN pattern of the cache, covariance, determinant and quadratic form of the log marginal - is, read as reals,
+   the real-number posterior / log marginal of the real-number data set with the NaN rows DELETED, for ANY real
+   inverse AoR of the real masked train covariance.  Every n, t, every NaN pattern, any fill values. *)
+From GPV Require Import Base.Expr Base.Morph Proofs.C01_morph Proofs.C16_morph.
+
+Theorem c16_executed_mask_is_real_deletion :
+  forall n t (KJ muJ S : @M QcF) (y : @nvec QcF) Aoinv,
+    let ob := @is_obs QcF y in let k := nobs n ob in
+    inv_checked k (mat k k (@masked QcF n n ob ob (@train_covar QcF KJ S))) = Some Aoinv ->
+    is_inverse k (@masked RF n n ob ob (@train_covar RF (mapR KJ) (mapR S))) (mapR Aoinv) /\
+    Q2R' (@det QcF k (mat k k (@masked QcF n n ob ob (@train_covar QcF KJ S))))
+      = @det RF k (@masked RF n n ob ob (@train_covar RF (mapR KJ) (mapR S))) /\
+    Q2R' (@mll_quad_mask QcF n muJ Aoinv y) = @mll_quad_del RF n (mapR muJ) (mapR Aoinv) (nvR y) /\
+    forall AoR : @M RF, is_inverse k (@masked RF n n ob ob (@train_covar RF (mapR KJ) (mapR S))) AoR ->
+      meq t 1 (mapR (@pred_mean_mask QcF n (@Ksx QcF n KJ) (@sub QcF n 0 muJ)
+                       (@mean_cache_mask QcF n Aoinv (@offset QcF muJ y))))
+              (@del_mean RF n (mapR KJ) (mapR muJ) AoR (nvR y)) /\
+      meq t t (mapR (@cov_masked QcF n ob KJ Aoinv)) (@del_cov RF n ob (mapR KJ) AoR) /\
+      meq t 1 (mapR (@del_mean QcF n KJ muJ Aoinv y)) (@del_mean RF n (mapR KJ) (mapR muJ) AoR (nvR y)) /\
+      meq t t (mapR (@del_cov QcF n ob KJ Aoinv)) (@del_cov RF n ob (mapR KJ) AoR).
+Proof. exact executed_mask_is_real_deletion. Qed.
+Print Assumptions c16_executed_mask_is_real_deletion.
+
+Theorem c16_executed_fill_is_real_deletion :
+  forall n t (KJ muJ S : @M QcF) (y : @nvec QcF) Aoinv Afinv fv fv',
+    let ob := @is_obs QcF y in let k := nobs n ob in
+    inv_checked k (mat k k (@masked QcF n n ob ob (@train_covar QcF KJ S))) = Some Aoinv ->
+    inv_checked n (mat n n (@fill_kernel QcF ob (@train_covar QcF KJ S))) = Some Afinv ->
+    is_inverse n (@fill_kernel RF ob (@train_covar RF (mapR KJ) (mapR S))) (mapR Afinv) /\
+    forall AoR : @M RF, is_inverse k (@masked RF n n ob ob (@train_covar RF (mapR KJ) (mapR S))) AoR ->
+      meq t 1 (mapR (@pred_mean_fill QcF n (@Ksx QcF n KJ) (@sub QcF n 0 muJ)
+                       (@mean_cache_fill QcF n Afinv (@offset QcF muJ y) fv) fv'))
+              (@del_mean RF n (mapR KJ) (mapR muJ) AoR (nvR y)) /\
+      meq t t (mapR (@cov_filled QcF n ob KJ Afinv)) (@del_cov RF n ob (mapR KJ) AoR).
+Proof. exact executed_fill_is_real_deletion. Qed.
+Print Assumptions c16_executed_fill_is_real_deletion.
+
+(* the commutation itself, entrywise and for ANY field morphism (generic, no axioms) *)
+Theorem c16_missing_model_commutes_with_field_morphisms :
+  forall (K1 K2 : Fld) (phi : @car K1 -> @car K2), FldMorph K1 K2 phi ->
+  forall n (KJ muJ TT tm Aoinv Afinv : @M K1) (y r mc : @nvec K1) ob fv i j,
+    nvmap phi (@mean_cache_mask K1 n Aoinv r) i = @mean_cache_mask K2 n (mmap phi Aoinv) (nvmap phi r) i /\
+    phi (@pred_mean_mask K1 n TT tm mc i j) = @pred_mean_mask K2 n (mmap phi TT) (mmap phi tm) (nvmap phi mc) i j /\
+    nvmap phi (@mean_cache_fill K1 n Afinv r fv) i
+      = @mean_cache_fill K2 n (mmap phi Afinv) (nvmap phi r) (phi fv) i /\
+    phi (@pred_mean_fill K1 n TT tm mc fv i j)
+      = @pred_mean_fill K2 n (mmap phi TT) (mmap phi tm) (nvmap phi mc) (phi fv) i j /\
+    phi (@cov_masked K1 n ob KJ Aoinv i j) = @cov_masked K2 n ob (mmap phi KJ) (mmap phi Aoinv) i j /\
+    phi (@cov_filled K1 n ob KJ Afinv i j) = @cov_filled K2 n ob (mmap phi KJ) (mmap phi Afinv) i j /\
+    phi (@del_mean K1 n KJ muJ Aoinv y i j)
+      = @del_mean K2 n (mmap phi KJ) (mmap phi muJ) (mmap phi Aoinv) (nvmap phi y) i j /\
+    phi (@del_cov K1 n ob KJ Aoinv i j) = @del_cov K2 n ob (mmap phi KJ) (mmap phi Aoinv) i j.
+Proof. exact missing_model_commutes_with_field_morphisms. Qed.
+Print Assumptions c16_missing_model_commutes_with_field_morphisms.
+
+Example ex_c16_executed_missing_hypotheses :
+  (exists Aoinv, inv_checked (nobs 2 (@is_obs QcF wit_y))
+     (mat (nobs 2 (@is_obs QcF wit_y)) (nobs 2 (@is_obs QcF wit_y))
+        (@masked QcF 2 2 (@is_obs QcF wit_y) (@is_obs QcF wit_y) (@train_covar QcF wit_KJ wit_S))) = Some Aoinv) /\
+  (exists Afinv, inv_checked 2 (mat 2 2 (@fill_kernel QcF (@is_obs QcF wit_y) (@train_covar QcF wit_KJ wit_S))) = Some Afinv).
+Proof. exact ex_executed_missing_hyp. Qed.
+Print Assumptions ex_c16_executed_missing_hypotheses.
